@@ -28,6 +28,7 @@ func init() {
 			"crash model = process death (as the property states): every completed file-system call survives, an in-flight write keeps a prefix; loss of un-synced data (power failure) is stricter than the property and is not modelled",
 			"ioutil.WriteFile is modelled as the standard library implements it: open(create|truncate), write, close",
 			"external functions are application state outside the crashed process: their call counters keep the value they had at the crash",
+			"crash points are placed at every file-system call the real db/fs code makes; kinds it does not make on the current tree (truncate, remove, sync since writes go through temp file + rename) are listed with 0 and fire as soon as the code starts making such calls",
 		},
 		Real:       append(append([]string{}, realAll...), "db/fs (compiled against the simulated os)"),
 		Stub:       append(append([]string{}, stubAll...), "OS filesystem (simfs)"),
@@ -241,8 +242,12 @@ func runC12(c *core.Ctx) *core.Outcome {
 			replaced++
 		}
 		o.States = append(o.States, h64(h64(string(files0[recName])), h64(string(files1[recName]))))
-		contCache := map[string]*world.Step{}
-		cont := func(files map[string][]byte, calls map[string]int, tag string) *world.Step {
+		type contRes struct {
+			st    *world.Step
+			files map[string][]byte
+		}
+		contCache := map[string]*contRes{}
+		cont := func(files map[string][]byte, calls map[string]int, tag string) *contRes {
 			key := tag + "|" + callsKey(calls)
 			if r, ok := contCache[key]; ok {
 				return r
@@ -255,7 +260,7 @@ func runC12(c *core.Ctx) *core.Outcome {
 			}
 			cc := map[string]map[string]int{sid: calls}
 			_, cs := c12World(a, cfg, dn, ids, cc)
-			r := cs[sid].Request(nextIn, true)
+			r := &contRes{st: cs[sid].Request(nextIn, true), files: stateFiles(dn)}
 			contCache[key] = r
 			return r
 		}
@@ -364,19 +369,31 @@ func runC12(c *core.Ctx) *core.Outcome {
 			}
 			// (3) continuation
 			crashCalls := copyCalls(cs[sid].Calls)
-			got := cont(after, crashCalls, fmt.Sprintf("crash%d.%d", pt.step, pt.off))
+			gotR := cont(after, crashCalls, fmt.Sprintf("crash%d.%d", pt.step, pt.off))
+			got := gotR.st
 			if got.Panic != "" {
 				return fail("panic-after-crash", i, "%s: continuing on the crashed disk with input %q panicked in %s: %s", desc, nextIn, got.PanicAt, got.Panic)
 			}
 			match := false
+			bytesMatch := false
 			for ai, al := range allowed {
-				exp := cont(al, crashCalls, fmt.Sprintf("stable%d", indexOf(stable, al, ai)))
-				if stepSig(exp) == stepSig(got) {
+				expR := cont(al, crashCalls, fmt.Sprintf("stable%d", indexOf(stable, al, ai)))
+				if stepSig(expR.st) == stepSig(got) {
 					match = true
+					// the record written by the NEXT save on the crashed disk (possibly over leftovers
+					// of the interrupted one) must be the record a clean disk gets
+					// (the byte ORDER of a snapshot is not stable - cbor encodes Go maps in iteration
+					// order - so records are compared decoded and by length)
+					if recName == "" || sameRecord(expR.files[recName], gotR.files[recName]) {
+						bytesMatch = true
+					}
 				}
 			}
 			if !match {
 				return fail("continuation-differs", i, "%s: a fresh engine on the crashed disk answers %q with (cont=%v err=%q out=%s), unlike a twin continuing from the old or the new record (strays: %v)", desc, nextIn, got.Cont, got.ExecErr, short(got.Out), strays)
+			}
+			if !bytesMatch {
+				return fail("mixed-record-after-recovery", i, "%s: the next save on the crashed disk (strays: %v) leaves a record of %d bytes that differs from the record the same save leaves on a clean disk", desc, strays, len(gotR.files[recName]))
 			}
 		}
 		if !st.Cont || (st.ExecErr != "" && !st.Cont) {
@@ -424,4 +441,24 @@ func crashRun(s *world.Sess, in []byte) (crashed bool) {
 		return true
 	}
 	return s.W.Disk.Dead()
+}
+
+// sameRecord compares two session records decoded and by length (trailing or missing bytes show as a
+// different length even where the decoder tolerates them).
+func sameRecord(a, b []byte) bool {
+	if len(a) != len(b) {
+		return false
+	}
+	if len(a) == 0 {
+		return true
+	}
+	sa, ca, pa, _, ea := restore(a)
+	sb, cb, pb, _, eb := restore(b)
+	if pa != "" || pb != "" || (ea != nil) != (eb != nil) {
+		return false
+	}
+	if ea != nil {
+		return bytes.Equal(a, b)
+	}
+	return snapKey(sa, ca) == snapKey(sb, cb)
 }
